@@ -128,6 +128,17 @@ def xref_class(e):
     return "other"
 
 
+def _member_links(model):
+    """(object, reaction) pairs that are linked while both are members of the model."""
+    out = set()
+    for lst in (model.metabolites, model.genes):
+        for x in lst:
+            for r in x.reactions:
+                if getattr(r, "_model", None) is model:
+                    out.add((id(x), id(r)))
+    return out
+
+
 def dangling_is_outside_model(model, e, ever=None, gene_ops_seen=False):
     """Proves the known mechanism: the listed reaction has no model at all (it is the free
     reaction the metabolite / gene object was taken from)."""
@@ -143,10 +154,10 @@ def dangling_is_outside_model(model, e, ever=None, gene_ops_seen=False):
         return False
     for r in obj.reactions:
         if r.id == m.group(3) and getattr(r, "_model", None) is not model:
-            if ever is not None and id(r) in ever:
-                # the reaction was part of this model earlier in the history: an object of the model that keeps listing
-                # it after it left is not the recorded mechanism (objects taken from reactions that never were in the
-                # model) - unless it is the stale leftover of a renaming that C03 records (gene not named by the rule)
+            if ever is not None and (id(obj), id(r)) in ever:
+                # at the previous observed step both were members of the model and linked: the reaction has left and the
+                # object keeps listing it.  That is not the recorded mechanism (an object that *joins* the model while it
+                # lists a reaction outside it) - unless it is the stale leftover of a renaming that C03 records
                 if m.group(1) == "metabolite" or (observe._live(obj, r) and not gene_ops_seen):
                     return False
             return True
@@ -167,7 +178,7 @@ def run_case(base, case, acc):
     in_ctx = ops.names(with_tags=("rev",))
     ident = {"base": base, "case": case, "start": kind}
     # reactions that have been members of the model at some step (objects kept alive so that ids are not reused)
-    st = {"ref": refmodel.abstract(model), "before": observe.content(model), "stack": [], "ok": True, "ever": {id(r) for r in model.reactions}, "keep": list(model.reactions), "kept_ids": {id(r) for r in model.reactions}}
+    st = {"ref": refmodel.abstract(model), "before": observe.content(model), "stack": [], "ok": True, "ever": _member_links(model), "keep": []}
     n_steps = rng.randint(1, 25)
 
     def monitor(H, k, name, desc, exc, trace):
@@ -191,20 +202,21 @@ def run_case(base, case, acc):
             # C03's recorded mechanism needs one of these in the history: a renamed / removed gene object that a
             # reaction outside the model still carries; when the names coincide again the association looks alive
             st["gene_ops_seen"] = True
-        st["ever"].update(id(r) for r in model.reactions)
-        st["keep"].extend(r for r in model.reactions if id(r) not in st["kept_ids"] and not st["kept_ids"].add(id(r)))
+        links_now = _member_links(model)
         acc.count("xref_checks")
         try:
             xe = observe.xref_errors(model)
         except Exception as e:
             xe = [f"cross references unreadable: {type(e).__name__}: {e}"]
+        prev_links, st["ever"] = st["ever"], links_now
+        st["keep"] = [list(model.reactions), list(model.metabolites), list(model.genes)]  # keeps the objects alive: ids stay unique
         if name == "ctx.exit" and isinstance(exc, TypeError) and "of interface type optlang.glpk_interface to model of type optlang.glpk_exact_interface" in str(exc):
             st["exit_failed_known"] = True  # from here on the model is left half undone
         if xe:
             st["ok"] = False
             cls = xref_class(xe[0])
             key = f"C02/xref/{cls}/{name}"
-            if cls == "lists-reaction-that-is-not-in-the-model" and all(dangling_is_outside_model(model, e, st["ever"], st.get("gene_ops_seen", False)) for e in xe if "dangling" in e) and all("dangling" in e for e in xe):
+            if cls == "lists-reaction-that-is-not-in-the-model" and all(dangling_is_outside_model(model, e, prev_links, st.get("gene_ops_seen", False)) for e in xe if "dangling" in e) and all("dangling" in e for e in xe):
                 key = "C02/xref/metabolite-or-gene-lists-a-reaction-outside-the-model"
             if st.get("detached_taint"):
                 key = "C02/xref/after-leaving-a-block-in-which-a-detached-reaction-was-rescaled"
